@@ -55,7 +55,7 @@ theorem pad3_length (i : Int) (h : (intRepr i).length ≤ 3) : (pad3 i).length =
   omega
 
 end V2000
-open V2000
+open V2000 LineM
 
 /-- fixed-width integer fields read back -/
 theorem toIntV2000_pad3 (i : Int) (h : (intRepr i).length ≤ 3) : toIntV2000 (pad3 i) = .ok i := by
@@ -76,6 +76,7 @@ def propLine (tag : Str) (entries : List (Int × Int)) : Str :=
   cs "M  " ++ tag ++ pad3 entries.length ++ (entries.map fun e => ' ' :: pad3 e.1 ++ ' ' :: pad3 e.2).flatten
 
 namespace V2000
+open LineM
 
 theorem slice_mid (L pre mid post : Str) (a b : Nat) (hL : L = pre ++ (mid ++ post)) (ha : pre.length = a)
     (hb : a + mid.length = b) : slice L a b = mid := by
@@ -170,7 +171,7 @@ theorem parseAtomValueAssignments_propLine (tag : Str) (htag : tag.length = 3) (
   have hline : propLine tag entries = (cs "M  " ++ tag ++ pad3 entries.length) ++ (([] ++ entries).map enc).flatten := rfl
   have hn' : slice (propLine tag entries) 6 9 = pad3 entries.length :=
     slice_mid _ (cs "M  " ++ tag) (pad3 entries.length) ((entries.map enc).flatten) 6 9
-      (by simp [propLine, enc]) (by simp only [List.length_append, htag, cs]; rfl) (by rw [pad3_length _ hn])
+      (by rw [hline]; simp) (by simp only [List.length_append, htag, cs]; rfl) (by rw [pad3_length _ hn])
   rw [parseAtomValueAssignments_eq, hn', toIntV2000_pad3 _ hn, ok_bind, Int.toNat_natCast, List.range_eq_range', hline]
   have := avLoop _ hH atoms entries [] [] (by simp) hfit hex
   simpa using this
@@ -215,6 +216,126 @@ def hasChgOrRad (bl : List BlockLine) : Bool :=
     | .assign .rad _ => true
     | _ => false
 
+namespace V2000
+
+theorem alookup_ainsert {ν} (i k : Int) (v : ν) : ∀ (l : List (Int × ν)),
+    alookup k (ainsert i v l) = if i == k then some v else alookup k l := by
+  intro l
+  induction l with
+  | nil => simp [ainsert, alookup]
+  | cons p r ih =>
+    obtain ⟨k', v'⟩ := p
+    by_cases h1 : k' = i
+    · subst h1
+      by_cases h2 : k' = k <;> simp [ainsert, alookup, h2]
+    · by_cases h2 : i = k
+      · subst h2
+        simp [ainsert, alookup, h1, ih]
+      · simp [ainsert, alookup, h1, h2, ih]
+
+def Extra.get (e : Extra) : PropKey → Option Int
+  | .chg => e.chg
+  | .rad => e.rad
+  | .mass => e.mass
+
+/-- the stored field for atom `k` under `key`, none if there is no record -/
+def fieldOf (ex : List (Int × Extra)) (key : PropKey) (k : Int) : Option Int :=
+  (alookup k ex).bind (Extra.get · key)
+
+/-- one dictionary update of `_merge_tuples_into_additional_attributes` -/
+def merge1 (ex : List (Int × Extra)) (a : PropKey × Int × Int) : List (Int × Extra) :=
+  ainsert a.2.1 (((alookup a.2.1 ex).getD {}).set a.1 a.2.2) ex
+
+def mergeAll (asg : List (PropKey × Int × Int)) (ex : List (Int × Extra)) : List (Int × Extra) :=
+  asg.foldl merge1 ex
+
+theorem mergeTuples_eq (t : List (Int × Int)) (key : PropKey) (ex : List (Int × Extra)) :
+    mergeTuples t key ex = mergeAll (t.map fun e => (key, e.1, e.2)) ex := by
+  simp only [mergeTuples, mergeAll, List.foldl_map]
+  rfl
+
+theorem mergeAll_append (a b : List (PropKey × Int × Int)) (ex : List (Int × Extra)) :
+    mergeAll (a ++ b) ex = mergeAll b (mergeAll a ex) := by
+  simp only [mergeAll, List.foldl_append]
+
+theorem fieldOf_merge1 (ex : List (Int × Extra)) (a : PropKey × Int × Int) (key : PropKey) (k : Int) :
+    fieldOf (merge1 ex a) key k = if (a.1 == key && a.2.1 == k) = true then some a.2.2 else fieldOf ex key k := by
+  obtain ⟨key', i, v⟩ := a
+  simp only [fieldOf, merge1, alookup_ainsert]
+  by_cases h : i = k
+  · subst h
+    simp only [beq_self_eq_true, if_true, Option.bind_some, Bool.and_true]
+    cases alookup i ex <;> cases key' <;> cases key <;> simp [Extra.set, Extra.get] <;> rfl
+  · have : (i == k) = false := by simpa using h
+    simp only [this, Bool.false_eq_true, if_false, Bool.and_false]
+
+theorem lastAssigned_concat (asg : List (PropKey × Int × Int)) (a : PropKey × Int × Int) (key : PropKey) (k : Int) :
+    lastAssigned (asg ++ [a]) key k =
+      if (a.1 == key && a.2.1 == k) = true then some a.2.2 else lastAssigned asg key k := by
+  unfold lastAssigned
+  rw [List.filter_append, List.getLast?_append]
+  by_cases h : (a.1 == key && a.2.1 == k) = true
+  · simp [h]
+  · simp [h]
+
+/-- the dictionary records, for every atom and key, the last value assigned so far -/
+def Inv (ex : List (Int × Extra)) (asg : List (PropKey × Int × Int)) : Prop :=
+  ∀ key k, fieldOf ex key k = lastAssigned asg key k
+
+theorem inv_nil : Inv [] [] := fun _ _ => rfl
+
+theorem inv_mergeAll : ∀ (b a : List (PropKey × Int × Int)) (ex : List (Int × Extra)), Inv ex a →
+    Inv (mergeAll b ex) (a ++ b) := by
+  intro b
+  induction b with
+  | nil => intro a ex h; simpa [mergeAll] using h
+  | cons x b ih =>
+    intro a ex h
+    have hx : Inv (merge1 ex x) (a ++ [x]) := by
+      intro key k
+      rw [fieldOf_merge1, lastAssigned_concat, h key k]
+    have := ih (a ++ [x]) (merge1 ex x) hx
+    simpa [mergeAll] using this
+
+theorem startsWith_END :
+    startsWith (cs "M  END") (cs "M  CHG") = false ∧ startsWith (cs "M  END") (cs "M  RAD") = false ∧
+    startsWith (cs "M  END") (cs "M  ISO") = false := by decide
+
+theorem scan_spec (atoms : List (Int × Atom)) (tail : List Str) (bl : List BlockLine) (lines : List Str)
+    (h : RendersAll atoms bl lines) : ∀ (ex : List (Int × Extra)) (flag : Bool),
+    parseAttributeBlock.scan atoms (lines ++ cs "M  END" :: tail) ex flag =
+      .ok (mergeAll (allAssignments bl) ex, flag || hasChgOrRad bl) := by
+  induction h with
+  | nil =>
+    intro ex flag
+    rw [List.nil_append, parseAttributeBlock.scan.eq_2]
+    simp only [startsWith_END.1, startsWith_END.2.1, startsWith_END.2.2, Bool.false_eq_true, if_false,
+      beq_self_eq_true, if_true]
+    simp [mergeAll, allAssignments, hasChgOrRad, pure, Except.pure]
+  | @cons b l bs ls hr _ ih =>
+    intro ex flag
+    rw [List.cons_append, parseAttributeBlock.scan.eq_2]
+    cases b with
+    | other =>
+      obtain ⟨h1, h2, h3, h4⟩ := hr
+      have h4' : (l == cs "M  END") = false := by simpa using h4
+      simp only [h1, h2, h3, h4', Bool.false_eq_true, if_false, ih]
+      simp [allAssignments, hasChgOrRad]
+    | assign key entries =>
+      obtain ⟨hk, hp⟩ := hr
+      cases key with
+      | chg =>
+        simp only [hk, if_true, hp, ok_bind, ih, mergeTuples_eq]
+        simp [allAssignments, hasChgOrRad, mergeAll_append]
+      | rad =>
+        simp only [hk.1, hk.2, Bool.false_eq_true, if_false, if_true, hp, ok_bind, ih, mergeTuples_eq]
+        simp [allAssignments, hasChgOrRad, mergeAll_append]
+      | mass =>
+        simp only [hk.1, hk.2.1, hk.2.2, Bool.false_eq_true, if_false, if_true, hp, ok_bind, ih, mergeTuples_eq]
+        simp [allAssignments, hasChgOrRad, mergeAll_append]
+
+end V2000
+
 /-- **The property block.**  Given the atoms of the atom block and a property block consisting of any
 mixture of `M  CHG` / `M  RAD` / `M  ISO` lines and unrelated lines followed by `M  END` (and anything
 after it), the reader returns, for every atom `k`:
@@ -232,6 +353,35 @@ theorem parseAttributeBlock_spec (atoms : List (Int × Atom)) (bl : List BlockLi
         chg := nonZero (lastAssigned asg .chg k) <|> base.chg,
         rad := nonZero (lastAssigned asg .rad k) <|> base.rad,
         mass := nonZero (lastAssigned asg .mass k) <|> base.mass })) := by
+  have hinv : Inv (mergeAll (allAssignments bl) []) (allAssignments bl) := by
+    simpa using inv_mergeAll (allAssignments bl) [] [] inv_nil
+  have hfield : ∀ (k : Int) (a : Atom),
+      (match alookup k (mergeAll (allAssignments bl) []) with
+        | none => (k, a)
+        | some e => (k, { a with chg := nonZero e.chg <|> a.chg, rad := nonZero e.rad <|> a.rad,
+                                 mass := nonZero e.mass <|> a.mass })) =
+      (k, { a with
+        chg := nonZero (lastAssigned (allAssignments bl) .chg k) <|> a.chg,
+        rad := nonZero (lastAssigned (allAssignments bl) .rad k) <|> a.rad,
+        mass := nonZero (lastAssigned (allAssignments bl) .mass k) <|> a.mass }) := by
+    intro k a
+    have h1 := hinv .chg k
+    have h2 := hinv .rad k
+    have h3 := hinv .mass k
+    simp only [fieldOf] at h1 h2 h3
+    cases he : alookup k (mergeAll (allAssignments bl) []) with
+    | none =>
+      rw [he] at h1 h2 h3
+      simp only [Option.bind_none] at h1 h2 h3
+      simp only [← h1, ← h2, ← h3, nonZero]
+      trace_state
+      sorry
+    | some e =>
+      rw [he] at h1 h2 h3
+      simp only [Option.bind_some, Extra.get] at h1 h2 h3
+      simp only [h1, h2, h3]
+  unfold parseAttributeBlock
+  rw [scan_spec atoms tail bl lines hlines [] false, ok_bind]
   sorry
 
 /-- the charge-code table as the reader applies it -/
